@@ -298,77 +298,113 @@ def _is_legacy_fixed(t, unit_i):
 
 # ------------------------------------------------------------------------------------------------
 def r3_check_category_unit(rep, ctx):
+    """Term-based: the verdict is whatever the tests of the function read - the memo entry under
+    (category, unit), or a value all of whose reaching definitions are boolean constants (assigned here
+    or returned by a helper called with (category, unit))."""
     m = ctx.model
     fn = m.method("UnitDatabase", "CheckCategoryUnit")
     cfg = CFG(fn.node)
     res = Resolver(m, fn)
+    P_CAT, P_UNIT = ("param", fn.params.index("category"), "category"), ("param", fn.params.index("unit"), "unit")
+    KEY = ("tuple", (P_CAT, P_UNIT))
+
+    def memo_read(t):
+        return t[0] == "sub" and _is_field(t[1], "_category_unit_valid")
+
+    def is_bool(t):
+        return t[0] == "const" and isinstance(t[1], bool)
+
+    def is_verdict(t):
+        alts = alternatives(t)
+        return bool(alts) and all((memo_read(a_) and a_[2] == KEY) or is_bool(a_) for a_ in alts) and (len(alts) > 1 or memo_read(alts[0]))
+
     verdict_edges = set()
     for nid in cfg.nodes("test"):
         e = cfg.ast[nid]
         t = res.term(e)
-        if (t[0] == "sub" and _is_field(t[1], "_category_unit_valid")) or (isinstance(e, ast.Name) and e.id == "valid"):
-            verdict_edges |= {(nid, b, lab) for (b, lab) in cfg.succ[nid] if lab == "T"}
+        if memo_read(t) and t[2] != KEY:
+            rep.bad("C05.R3", "CheckCategoryUnit:memo-key", "the memo is read under %s instead of (category, unit)" % show(t[2]), node=e, fn=fn)
+        if is_verdict(t):
+            verdict_edges |= {(nid, b_, lab) for (b_, lab) in cfg.succ[nid] if lab == "T"}
     r = cfg.reach(cfg.ENTRY, avoid_edges=verdict_edges)
     rep.check(bool(verdict_edges) and cfg.EXIT not in r, "C05.R3", "CheckCategoryUnit:exit-needs-positive-verdict", "every normal exit passes a positive verdict (memo hit true, or valid == True)",
               "CheckCategoryUnit can return normally without a positive verdict: an invalid (category, unit) pair is accepted", fn=fn)
-    # where the verdict is decided: in this function, or in a helper the verdict variable is assigned from
-    sites_fn = fn
-    assigns = [st for st in own_statements(fn.node) if isinstance(st, ast.Assign) and isinstance(st.targets[0], ast.Name) and st.targets[0].id == "valid"]
-    helper_call = [st for st in assigns if isinstance(st.value, ast.Call)]
-    if helper_call and len(assigns) == 1:
-        c = helper_call[0].value
-        g = m.lookup("UnitDatabase", c.func.attr) if isinstance(c.func, ast.Attribute) and isinstance(c.func.value, ast.Name) and c.func.value.id == fn.params[0] else None
-        if g is None:
-            raise AnalysisError("CheckCategoryUnit: the verdict comes from %s, which cannot be resolved" % ast.unparse(c))
-        passed = [ast.unparse(a) for a in c.args]
-        if passed != ["category", "unit"] or g.params[1:3] != ["category", "unit"]:
-            raise AnalysisError("CheckCategoryUnit: the verdict helper is not called with (category, unit)")
-        sites_fn = g
-    sfn = sites_fn
-    scfg = CFG(sfn.node)
-    sres = Resolver(m, sfn)
-    # verdict sites: `valid = <bool>` or `return <bool>` in the deciding function
-    sites = []
-    for st in own_statements(sfn.node):
-        if isinstance(st, ast.Assign) and isinstance(st.targets[0], ast.Name) and st.targets[0].id == "valid" and isinstance(st.value, ast.Constant):
-            sites.append((st, st.value.value))
-        elif sfn is not fn and isinstance(st, ast.Return) and isinstance(st.value, ast.Constant) and isinstance(st.value.value, bool):
-            sites.append((st, st.value.value))
+    # where the verdict is decided: boolean constants assigned in this function, or returned by a helper
+    # that did not exist in the baseline and is called with (category, unit)
+    from ..anchors import KNOWN_FUNCTIONS
+
+    deciders = []  # (function, category param term, unit param term)
+    sites = []  # (statement, value, function)
+    for st in own_statements(fn.node):
+        if not isinstance(st, (ast.Assign, ast.AnnAssign)) or st.value is None:
+            continue
+        v = st.value
+        if isinstance(v, ast.Constant) and isinstance(v.value, bool):
+            sites.append((st, v.value, fn))
+            if all(d[0] is not fn for d in deciders):
+                deciders.append((fn, P_CAT, P_UNIT))
+        elif isinstance(v, ast.Call):
+            g = res._callee(v.func, None)
+            if g is None or g.name in KNOWN_FUNCTIONS:
+                continue
+            grets = [x for x in own_statements(g.node) if isinstance(x, ast.Return)]
+            if not grets or not all(isinstance(x.value, ast.Constant) and isinstance(x.value.value, bool) for x in grets):
+                continue
+            bound = {}
+            from ..facts import bind_args
+
+            for pname, a_ in bind_args(v, g).items():
+                bound[res.term(a_)] = ("param", g.params.index(pname), pname)
+            if P_CAT not in bound or P_UNIT not in bound:
+                raise AnalysisError("CheckCategoryUnit: the verdict helper %s is not called with (category, unit)" % g.qual)
+            deciders.append((g, bound[P_CAT], bound[P_UNIT]))
+            for x in grets:
+                sites.append((x, x.value.value, g))
     rep.floor("C05.R3", "verdict sites", len(sites), 2)
-    checks = []
-    for c in own_nodes(sfn.node):
-        if isinstance(c, ast.Call) and isinstance(c.func, ast.Attribute) and c.func.attr in ("CheckQuantityTypeUnit", "GetInfo"):
-            a = [sres.term(x) for x in c.args]
-            if len(a) >= 2 and a[1] == ("param", sfn.params.index("unit"), "unit") and any(s2[0] == "call" and "GetCategoryInfo" in str(s2[1]) for s2 in walk(a[0])):
-                checks.append(scfg.node_of(c))
-    normal_out = set()
-    for cn in checks:
-        normal_out |= {(cn, b, l) for (b, l) in scfg.succ[cn] if l != "exc"}
-    for st, val in sites:
-        n_ = scfg.node_of(st)
-        in_handler = False
-        p_ = getattr(st, "_parent", None)
-        while p_ is not None and p_ is not sfn.node:
-            if isinstance(p_, ast.ExceptHandler):
-                in_handler = True
-            p_ = getattr(p_, "_parent", None)
-        if val is True:
-            ok = bool(checks) and n_ not in scfg.reach(scfg.ENTRY, avoid_edges=normal_out)
-            rep.check(ok, "C05.R3", "CheckCategoryUnit:positive-after-check", "the positive verdict is recorded only after the unit was checked against the category's quantity type",
-                      "a positive verdict can be recorded without the check of (quantity type of the category, unit) having returned normally", node=st, fn=sfn)
-        elif val is False:
-            rep.check(in_handler, "C05.R3", "CheckCategoryUnit:handler-verdict", "the negative verdict is recorded in the failure handler of the unit check",
-                      "a negative verdict is recorded outside the failure handler", node=st, fn=sfn)
-        else:
-            rep.bad("C05.R3", "CheckCategoryUnit:verdict:%s" % norm(ast.unparse(st)), "the verdict is not a boolean constant", node=st, fn=sfn)
-    # a handler must not record a positive verdict
-    for st, val in sites:
-        p_ = getattr(st, "_parent", None)
-        if isinstance(p_, ast.ExceptHandler) and val is True:
-            rep.bad("C05.R3", "CheckCategoryUnit:handler-verdict", "the failure handler of the unit check records True: a unit outside the category's quantity type is accepted (and memoised)", node=st, fn=sfn)
-    # what is memoised is the verdict
-    memo = [st for st in own_statements(fn.node) if isinstance(st, ast.Assign) and isinstance(st.targets[0], ast.Subscript) and "_category_unit_valid" in ast.unparse(st.targets[0])]
-    ok = len(memo) == 1 and isinstance(memo[0].value, ast.Name) and memo[0].value.id == "valid" and res.term(memo[0].targets[0].slice) == ("tuple", (("param", 1, "category"), ("param", 2, "unit")))
+    for sfn, pcat, punit in deciders:
+        scfg = CFG(sfn.node)
+        sres = Resolver(m, sfn)
+        checks = []
+        for c in own_nodes(sfn.node):
+            if isinstance(c, ast.Call) and isinstance(c.func, ast.Attribute) and c.func.attr in ("CheckQuantityTypeUnit", "GetInfo"):
+                a_ = [sres.term(x) for x in c.args]
+                if len(a_) >= 2 and a_[1] == punit and any(s2[0] == "call" and "GetCategoryInfo" in str(s2[1]) and pcat in s2[2] for s2 in walk(a_[0])):
+                    checks.append(scfg.node_of(c))
+        normal_out = set()
+        for cn in checks:
+            normal_out |= {(cn, b_, l_) for (b_, l_) in scfg.succ[cn] if l_ != "exc"}
+        for st, val, f_ in sites:
+            if f_ is not sfn:
+                continue
+            n_ = scfg.node_of(st)
+            in_handler = False
+            p_ = getattr(st, "_parent", None)
+            while p_ is not None and p_ is not sfn.node:
+                if isinstance(p_, ast.ExceptHandler):
+                    tr = getattr(p_, "_parent", None)
+                    if isinstance(tr, ast.Try) and any(scfg.node_of(c) in checks for b_ in tr.body for c in ast.walk(b_) if isinstance(c, ast.Call)):
+                        in_handler = True
+                p_ = getattr(p_, "_parent", None)
+            if val is True:
+                ok = bool(checks) and n_ not in scfg.reach(scfg.ENTRY, avoid_edges=normal_out)
+                rep.check(ok and not in_handler, "C05.R3", "CheckCategoryUnit:positive-after-check", "the positive verdict is recorded only after the unit was checked against the category's quantity type",
+                          "a positive verdict can be recorded without the check of (quantity type of the category, unit) having returned normally" if not in_handler else
+                          "the failure handler of the unit check records True: a unit outside the category's quantity type is accepted (and memoised)", node=st, fn=sfn)
+            else:
+                rep.check(in_handler, "C05.R3", "CheckCategoryUnit:handler-verdict", "the negative verdict is recorded in the failure handler of the unit check",
+                          "a negative verdict is recorded outside the failure handler", node=st, fn=sfn)
+    # what is memoised is the verdict that is tested
+    memo = []
+    for st in own_statements(fn.node):
+        if isinstance(st, ast.Assign):
+            for t_ in st.targets:
+                if isinstance(t_, ast.Subscript) and _is_field(res.term(t_.value), "_category_unit_valid"):
+                    memo.append((st, t_))
+    ok = len(memo) == 1
+    if ok:
+        st, t_ = memo[0]
+        vt = res.term(st.value)
+        ok = res.term(t_.slice) == KEY and len(alternatives(vt)) > 1 and all(is_bool(a_) for a_ in alternatives(vt))
     rep.check(ok, "C05.R3", "CheckCategoryUnit:memo", "the memo stores the verdict under (category, unit)", "the memo stores something else than the verdict under (category, unit)", fn=fn)
 
 
